@@ -29,6 +29,7 @@ var apiFiles = []treeFile{
 	{Name: "components/c", Src: "[{{ n }}:@slot]"},
 	{Name: "ok", Src: "@use(\"~main\")@insert(\"title\", who.upper() + items[0].str())@insert(\"content\")@each(x in items)({{ x }}{{ loop.last ? \"\" : \",\" }})@end" +
 		"@component(\"~c\", {n: who})@slot{{ who.upper() }}@end@end@end"},
+	{Name: "ok2", Src: "@use(\"~main\")@insert(\"content\")second page of {{ who }}@component(\"~c\", {n: 2})@end@insert(\"title\", \"Second\")"},
 	{Name: "bad", Src: "PARTIAL-OUTPUT-MARKER {{ who }}\n{{ items[0] / 0 }} after"},
 	{Name: "err", Src: "<custom>error page 50% %v</custom>"},
 	{Name: "components/boom", Src: "PARTIAL-OUTPUT-MARKER in component {{ n / 0 }}"},
@@ -558,7 +559,7 @@ func cmdRace(args []string) int {
 	defer f.Close()
 	w := bufio.NewWriter(f)
 	defer w.Flush()
-	allOps := []apiOp{{"String", "ok"}, {"String", "bad"}, {"String", "missing"}, {"Response", "ok"}, {"Response", "bad"},
+	allOps := []apiOp{{"String", "ok"}, {"String", "ok2"}, {"String", "ok2"}, {"String", "bad"}, {"String", "missing"}, {"Response", "ok"}, {"Response", "bad"},
 		{"Response", "missing"}, {"EvalString", "ok"}, {"EvalString", "bad"}, {"EvalFile", "ok"}}
 	cfgs := []apiCfg{{"t", ".tw", "", false}, {"t", ".tw", "err", false}, {"t", ".tw", "", true}, {"t", ".tw", "err", true}}
 	deadline := time.Now().Add(time.Duration(*seconds) * time.Second)
